@@ -83,6 +83,19 @@ def bundle_cap_obligations(ctx, pid, propdef, tier):
 
 def obligations(ctx):
     obls = bundle_obligations(ctx, PID, PROPDEF, ctx.tier)
+    raw_ = '"%s"' % os.path.join(ctx.repo, "src/rtosc.c")
+    # the produced buffer measured with its (concrete) capacity as bound, destination previously holding arbitrary bytes
+    for seq in sequences(ctx.tier):
+        if not seq or len(seq) > 2 or "KG" in seq:
+            continue
+        need = 16 + sum(4 + SIZES[k] for k in seq)
+        kinds = ",".join(seq + ("KC",) * (6 - len(seq)))
+        for cap in (need, need + 4, need + 8):
+            obls.append(Obl("C08.bundle_in_place.%s.cap%03d" % ("_".join(seq), cap), "C08", "harness/C08/bundle.c", entry="h_bundle",
+                            defines={"RTOSC_C": raw_, "BN_K": str(len(seq)), "BN_KINDS": kinds, "PROP_C08": None, "BN_CAP": str(cap)},
+                            mode="bounded", bound="element sequence and capacity fixed; payload, time tag and previous buffer content symbolic",
+                            cbmc=["--unwind", "260", "--unwinding-assertions"], timeout=600, mem_gb=8,
+                            case={"elements": list(seq), "capacity": cap, "needed": need}))
     # known finding (known-findings.txt): an element that is itself a bundle, held in an exact-size object
     raw = '"%s"' % os.path.join(ctx.repo, "src/rtosc.c")
     obls.append(Obl("C08.bundle_exact_nested.KD", "C08", "harness/C08/bundle.c", entry="h_bundle",
